@@ -501,7 +501,7 @@ func runC19(w *core.W) {
 			}
 		}
 	}
-	for i, n := 0, w.Pick(15000, 200000); i < n; i++ {
+	for i, n := 0, w.Pick(45000, 600000); i < n; i++ {
 		run(&DateCase{Fn: "date", Args: []int64{1 + r.Int63n(9999), r.Int63n(101) - 40, r.Int63n(101) - 40}})
 	}
 	for _, u := range trans {
@@ -518,7 +518,7 @@ func runC19(w *core.W) {
 		}
 	}
 	instants = append(instants, 0, -1, 1, 86399, 86400, -86400, 951782400, 253402300799, -62135596800, 9224318015, 9224318016, -9223372037, 32503680000, 1<<31-1, 1<<31, 1700000000)
-	for i, n := 0, w.Pick(6000, 80000); i < n; i++ {
+	for i, n := 0, w.Pick(18000, 240000); i < n; i++ {
 		instants = append(instants, r.Int63n(253402300800+62135596800)-62135596800)
 	}
 	for i, u := range instants {
